@@ -37,7 +37,7 @@ KINDS = ["Sphere", "SphereLayered", "LayeredSphere", "Spheres", "Scatterers", "S
          "Mie", "Multisphere", "Tmatrix", "MieLens", "AberratedMieLens", "Lens",
          "NmpfitStrategy", "LeastSquaresScipyStrategy", "CmaStrategy", "EmceeStrategy", "TemperedStrategy",
          "AlphaModel", "ExactModel", "ModelTied", "ModelChannels", "LimitOverlaps", "UncertainValue", "SphereWithPriors",
-         "SharedScalar", "SharedContainer", "SharedObject", "RigidClusterDefaults", "ModelTiedTheory"]
+         "SharedScalar", "SharedContainer", "SharedObject", "RigidClusterDefaults", "ModelTiedTheory", "ModelXarrayChannels"]
 
 
 def cases(tier, seed):
@@ -244,6 +244,15 @@ def _make(what, rng, fl):
     if what == "SphereWithPriors":
         p = _prior(rng, "U")
         return Sphere(n=[_prior(rng), ComplexPrior(_prior(rng, "U"), 0.01), 1.5][int(rng.integers(0, 3))], r=p, center=[p * 2, _prior(rng, "G"), 3.0])
+    if what == "ModelXarrayChannels":
+        # per-channel values handed over as labelled arrays (string or integer channel labels) instead of dictionaries
+        import xarray as xr
+        labs = [["red", "green"], ["uv", "ir"], [405, 658]][int(rng.integers(0, 3))]
+        arr = lambda vals: xr.DataArray(vals, dims=["illumination"], coords={"illumination": labs})
+        pol = xr.DataArray([[1, 0], [0, 1]], dims=["illumination", "vector"], coords={"illumination": labs, "vector": ["x", "y"]})
+        sph = Sphere(n=arr([_prior(rng, "U"), _prior(rng, "G")]), r=_prior(rng, "U"), center=[1.0, 2.0, _prior(rng, "U")])
+        return AlphaModel(sph, alpha=_prior(rng, "U"), theory=Mie(), illum_wavelen=arr([0.66, _prior(rng, "U")]), medium_index=arr([1.33, 1.34]),
+                          illum_polarization=pol, noise_sd=arr([0.1, 0.2]))
     if what == "ModelTiedTheory":
         # ties that involve the THEORY's fitted parameters: add_tie on two of them, or one prior object used by the theory
         # and elsewhere in the model (scaling / optics)
@@ -477,7 +486,8 @@ def run_case(case):
                 flags[key] = False
                 i = next((j for j in range(min(len(texts[k]), len(texts[k - 1]))) if texts[k][j] != texts[k - 1][j]), 0)
                 witness.append("text %d vs %d differ at %d: %r vs %r" % (k - 1, k, i, texts[k - 1][max(0, i - 30):i + 40], texts[k][max(0, i - 30):i + 40]))
-        if case["argstyle"] == "python" and not isinstance(obj, Model):
+        # (library equality is claimed for list / scalar arguments only: these two kinds hold tuples or arrays whatever the style)
+        if case["argstyle"] == "python" and not isinstance(obj, Model) and case["what"] not in ("RigidClusterDefaults", "SharedContainer"):
             try:
                 flags["library_equality"] = bool(cur == obj)
             except Exception as e:
